@@ -163,6 +163,9 @@ func TestVerif_C19Race(t *testing.T) {
 		s := NewStore[int, int](opts)
 		ls := NewLoadingStore[int, int](s)
 		ls.Loader(func(ctx context.Context, key int) (Loaded[int], error) {
+			if key >= 1000 {
+				time.Sleep(100 * time.Microsecond) // the load bursts: callers arriving meanwhile join this load
+			}
 			return Loaded[int]{Value: key * 7, Cost: 1, TTL: time.Duration(key%3) * 50 * time.Millisecond}, nil
 		})
 		var wg sync.WaitGroup
@@ -213,6 +216,37 @@ func TestVerif_C19Race(t *testing.T) {
 			}(g)
 		}
 		time.Sleep(time.Duration(120+round*30) * time.Millisecond)
+		if round%2 == 0 {
+			// a read-heavy burst: every stripe of the read buffer is filled and drained many times, by different goroutines
+			var wg2 sync.WaitGroup
+			for g := 0; g < 8; g++ {
+				wg2.Add(1)
+				go func(g int) {
+					defer wg2.Done()
+					for i := 0; i < 6000; i++ {
+						s.Get((i + g) % 40)
+					}
+				}(g)
+			}
+			wg2.Wait()
+			// load bursts: callers keep missing on three keys, one loads (slowly) while the others wait for it; call
+			// records go back to the pool and are taken again while late callers are still returning
+			for g := 0; g < 8; g++ {
+				wg2.Add(1)
+				go func(g int) {
+					defer wg2.Done()
+					r := vRand(int64(round*1000 + g))
+					for i := 0; i < 150; i++ {
+						key := 1000 + r.Intn(3)
+						if r.Intn(3) == 0 {
+							s.Delete(key)
+						}
+						ls.Get(context.Background(), key)
+					}
+				}(g)
+			}
+			wg2.Wait()
+		}
 		if round%2 == 1 {
 			s.Close() // Close racing everything else
 			time.Sleep(20 * time.Millisecond)
